@@ -222,3 +222,90 @@ Proof.
       destruct sort; [apply sort_points_in|]; exact Hfil.
 Qed.
 Print Assumptions view_point_is_in_view_raw.
+
+(** * every archive at once ([-archive] not given): the same statement for each archive *)
+
+(** the core of the statement above, for one fetched series: a non-NaN point of the series, inside the requested
+    range, passes view-raw's filter over the archive's physical slots *)
+Lemma fetched_point_in_filter_raw arcs id a from until now s t v :
+  0 <= id -> nth_error arcs (Z.to_nat id) = Some a -> wf_arc a ->
+  period a <= now -> now + 2 * a_step a < TMAX ->
+  0 <= from < 2^32 -> 0 <= until < 2^32 -> from <= until ->
+  fetch_from_archive arcs id from until now = FSeries s ->
+  In (mkPoint t v) (series_points s) -> is_nan v = false ->
+  (from = 0 \/ from < t) -> t <= (if until =? from then ts_add until (a_step a) else until) ->
+  In (mkPoint t v) (filter_raw (a_step a) from until (a_slots a)).
+Proof.
+  intros Hid Hnth Hwf Hp Hnow Hfrom Huntil Hfu Ef Hin Hnn Hr1 Hr2.
+  apply (In_nth _ _ (mkPoint 0 NaN)) in Hin. destruct Hin as (k & Hk & Hpk).
+  rewrite series_points_length in Hk. rewrite series_points_nth in Hpk by exact Hk. cbn [p_val] in Hpk.
+  injection Hpk as Ht Hv.
+  pose proof (fetched_value_is_a_stored_point arcs id a from until now s k Hid Hnth Hwf Hp Hnow Hfrom Huntil Hfu Ef Hk
+                ltac:(rewrite Hv; exact Hnn)) as Hstored.
+  pose proof (fetch_named_total arcs id a from until now Hid Hnth Hwf Hp Hnow Hfrom Huntil Hfu) as Htot.
+  destruct ((from >? now) || (until <? now - period a)) eqn:Ec; [rewrite Htot in Ef; discriminate|].
+  cbv zeta in Htot. destruct Htot as (vs & Hfe & Hvl). rewrite Hfe in Ef. injection Ef as <-.
+  cbn [s_from s_until s_step s_vals] in *.
+  rewrite orb_false_iff in Ec. destruct Ec as [E1 E2].
+  pose proof Hwf as (HS & HN & _ & _).
+  destruct (window_facts a from until now Hwf Hp Hnow ltac:(lia) ltac:(lia) Hfu) as ((Hf0 & _) & (Hu0 & _) & Hfu' & Hcnt & Hub).
+  assert (Hdiv : zlen vs * a_step a <= win_until a from until now - win_from a from now).
+  { rewrite Hvl. pose proof (Z.mul_div_le (win_until a from until now - win_from a from now) (a_step a) HS). lia. }
+  assert (Htk : ts_add (win_from a from now) (i32 (Z.of_nat k * a_step a)) = win_from a from now + Z.of_nat k * a_step a).
+  { unfold zlen in *. unfold TMAX in *. rewrite i32_small by nia. apply ts_add_nowrap; unfold TMAX; nia. }
+  rewrite Htk in Ht. rewrite Ht, Hv in Hstored.
+  apply filter_raw_in. split; [exact Hstored|]. cbn [p_time]. split; assumption.
+Qed.
+
+(** what [fetch_all] puts at position [q]: the fetch of archive [i + q], or an empty series when there is none *)
+Lemma fetch_all_nth arcs from until now : forall todo i l q a,
+  fetch_all arcs todo i from until now = TslOk l -> nth_error todo q = Some a ->
+  exists s, nth_error l q = Some s /\
+    (fetch_from_archive arcs (i + Z.of_nat q) from until now = FSeries s \/ s = empty_series (a_step a)).
+Proof.
+  induction todo as [|x r IH]; intros i l q a Hf Hq; [destruct q; discriminate|].
+  cbn [fetch_all] in Hf.
+  destruct (fetch_from_archive arcs i from until now) as [| | |s0|] eqn:E0; try discriminate;
+    destruct (fetch_all arcs r (i + 1) from until now) as [| |l'] eqn:E1; try discriminate; injection Hf as <-.
+  - destruct q as [|q]; cbn [nth_error] in *.
+    + injection Hq as ->. eexists; split; [reflexivity|right; reflexivity].
+    + destruct (IH (i + 1) l' q a E1 Hq) as (s & Hs & Hor). exists s. split; [exact Hs|].
+      replace (i + Z.of_nat (S q)) with (i + 1 + Z.of_nat q) by lia. exact Hor.
+  - destruct q as [|q]; cbn [nth_error] in *.
+    + injection Hq as ->. eexists; split; [reflexivity|left]. replace (i + Z.of_nat 0) with i by lia. exact E0.
+    + destruct (IH (i + 1) l' q a E1 Hq) as (s & Hs & Hor). exists s. split; [exact Hs|].
+      replace (i + Z.of_nat (S q)) with (i + 1 + Z.of_nat q) by lia. exact Hor.
+Qed.
+
+Theorem view_all_point_is_in_view_raw_all f h id from until0 now sh sh' sort a t v :
+  opened f = Some h -> 0 <= id -> nth_error (hd_arcs h) (Z.to_nat id) = Some a -> wf_arc a ->
+  period a <= now -> now + 2 * a_step a < TMAX ->
+  0 <= from < 2^32 -> 0 <= resolve_until until0 now < 2^32 -> from <= resolve_until until0 now ->
+  In (RPoint id t v) (snd (view_cmd f ArchiveIDAll from until0 now sh)) -> is_nan v = false ->
+  (from = 0 \/ from < t) ->
+  t <= (if resolve_until until0 now =? from then ts_add (resolve_until until0 now) (a_step a) else resolve_until until0 now) ->
+  In (RPoint id t v) (snd (view_raw_cmd f ArchiveIDAll from until0 now sh' sort)).
+Proof.
+  intros Hop Hid Hnth Hwf Hp Hnow Hfrom Huntil Hfu Hview Hnn Hr1 Hr2.
+  set (until := resolve_until until0 now) in *.
+  unfold view_cmd, read_file in Hview. destruct f as [hf|]; [|discriminate].
+  rewrite Hop in Hview. fold until in Hview.
+  unfold fetch_ts_list in Hview. rewrite Z.eqb_refl in Hview.
+  destruct (fetch_all (hd_arcs h) (hd_arcs h) 0 from until now) as [| |l] eqn:Ea; cbn [snd src_failure] in Hview; try contradiction.
+  apply in_app_or in Hview. destruct Hview as [Hv|Hv]; [exfalso; destruct sh; cbn in Hv; [destruct Hv as [Hv|[]]; discriminate|contradiction]|].
+  unfold points_records in Hv. apply points_records_in in Hv. destruct Hv as (ps & Hn & _ & Hin).
+  rewrite nth_error_map in Hn. replace (id - 0) with id in Hn by lia.
+  destruct (fetch_all_nth (hd_arcs h) from until now (hd_arcs h) 0 l (Z.to_nat id) a Ea Hnth) as (s & Hs & Hor).
+  rewrite Hs in Hn. cbn [option_map] in Hn. injection Hn as <-.
+  rewrite Z2Nat.id in Hor by lia. cbn [Z.add] in Hor.
+  destruct Hor as [Ef| ->]; [|cbn in Hin; contradiction].
+  pose proof (fetched_point_in_filter_raw (hd_arcs h) id a from until now s t v Hid Hnth Hwf Hp Hnow Hfrom Huntil Hfu Ef Hin Hnn Hr1 Hr2) as Hfil.
+  unfold view_raw_cmd. rewrite Hop. rewrite Z.eqb_refl. cbn [orb snd]. fold until.
+  apply in_or_app. right. unfold points_records.
+  apply (points_records_intro _ 0 id
+           (let ps := filter_raw (a_step a) from until (a_slots a) in if sort then sort_points ps else ps) t v ltac:(lia)).
+  - rewrite nth_error_map. replace (id - 0) with id by lia. rewrite (raw_lists_nth _ 0 ArchiveIDAll _ a Hnth).
+    rewrite Z.eqb_refl. cbn [orb option_map fst snd]. reflexivity.
+  - cbv zeta. destruct sort; [apply sort_points_in|]; exact Hfil.
+Qed.
+Print Assumptions view_all_point_is_in_view_raw_all.
